@@ -114,6 +114,12 @@ def callback_script(rng):
         cb = rng.choice([True, 'co', 'raise', 'raise', 'raise_co'])
         ops.append(['emit', tok, ['sid', 1, ns], None, ns, cb,
                     {'t': tok}])
+        if cfg['serializer'] == 'default' and rng.random() < 0.4:
+            # an acknowledgement with the right id whose payload is not a
+            # list (a string, an object, a number, nothing at all)
+            ops.append(['raw', 1, '3%s%d%s' % (
+                '' if ns == '/' else ns + ',', tok,
+                rng.choice(['"ab"', '{"a":1}', '5', '', 'null', '"x"']))])
         ops.append(['ack', 1, ns, tok, ['a', tok]])
         if rng.random() < 0.7:
             ops.append(['ack', 1, ns, tok, ['again', tok]])
